@@ -515,6 +515,9 @@ package main
 //@   assert at call notifySubChange [C05] notice_components: $1 == target && $2 == asUid && $4 == oldWant && $5 == oldGiven && $6 == userData.modeWant && $7 == userData.modeGiven
 //@   ensures [C08] failed_changes_nothing: err != nil ==> t.owner == old(t.owner) && (forall u types.Uid :: (u in t.perUser) == old(u in t.perUser) && ((u in t.perUser) ==> t.perUser[u].modeWant == old(t.perUser[u].modeWant) && t.perUser[u].modeGiven == old(t.perUser[u].modeGiven)))
 //@   assert at call store.SubsPersistenceInterface.Create [C07] limit: t.cat == types.TopicCatGrp ==> len(t.perUser) < globals.maxSubscriberCount
+// (C07: "a peer-to-peer topic never has a third participant": both participants have an entry from the moment the topic
+// exists - an unsubscribed one is only marked deleted - so an invitation there can only be for one of them)
+//@   assert at call store.SubsPersistenceInterface.Create [C07] p2p_no_third_participant: t.cat == types.TopicCatP2P ==> (target in t.perUser)
 
 // {del sub}: an administrator removes somebody else's subscription - never the owner's.
 //@ func (t *Topic) replyDelSub(sess *Session, asUid types.Uid, msg *ClientComMessage) (err error)
